@@ -158,6 +158,11 @@ impl Selector {
             .schedule_timer(now(), &timeout_handler);
         #[cfg(not(feature = "io_timeout"))]
         let next_expire = None;
+        // coroutines that are still queued (the budget of run_queued_tasks ran out, or a
+        // timer handler just made one runnable) must not wait for the next io event
+        if scheduler.has_local_tasks(id) {
+            return Ok(Some(0));
+        }
         Ok(next_expire)
     }
 
